@@ -72,8 +72,8 @@ Definition single_sound_b (last : option N) (before : list N) (x : N) (after : l
 (* ------------------------------------------------------------------ hook state helpers *)
 Definition queues_of (h : hook) : list (N * list N) :=
   match h with
-  | HStreamT q _ | HStreamN q _ | HPass q _ => [(0, q)]
-  | HSingle q _ _ => [(0, q)]
+  | HStreamT q _ | HStreamN q _ => [(0, q)]
+  | HSingle q _ _ | HPass q _ _ => [(0, q)]
   | HKeyedT m _ | HKeyedN m _ => m
   | HKSingle m _ _ => m
   end.
@@ -100,7 +100,7 @@ Definition push1 (h : hook) (kv : N * N) : hook :=
   | HStreamT q tr => HStreamT (q ++ [v]) tr
   | HStreamN q tr => HStreamN (q ++ [v]) tr
   | HSingle q tr last => HSingle (q ++ [v]) tr last
-  | HPass q tr => HPass (q ++ [v]) tr
+  | HPass q tr last => HPass (q ++ [v]) tr last
   | HKeyedT m tr => HKeyedT (mpush k v m) tr
   | HKeyedN m tr => HKeyedN (mpush k v m) tr
   | HKSingle m tr last => HKSingle (mpush k v m) tr last
@@ -166,7 +166,6 @@ Definition legit_call (h : hook) (force : bool) : bool :=
   (negb force || can_nontrivial h) && is_ready h
   && match h with
      | HKSingle m _ last => ksingle_wf m last
-     | HPass q _ => negb (is_nil q)
      | _ => true
      end.
 
@@ -204,9 +203,15 @@ Definition hook_sound_b (h : hook) (before : list (N * list N)) (emitted : list 
     | [(_, x)] => single_sound_b last (q0 before) x (q0 after)
     | _ => false
     end
-  | HPass _ _ =>
+  | HPass _ _ last =>
+    (* the newest pending value and an emptied buffer, or (nothing pending) the last value *)
     match emitted with
-    | [(_, x)] => single_sound_b None (q0 before) x (q0 after)
+    | [(_, x)] =>
+      is_nil (q0 after)
+      && match rev (q0 before) with
+         | y :: _ => N.eqb x y
+         | [] => opt_eqb N.eqb last (Some x)
+         end
     | _ => false
     end
   | HKSingle _ _ last => ksingle_sound_b last before emitted after
@@ -293,11 +298,7 @@ Fixpoint zip2_existsb {X Y} (f : X -> Y -> bool) (a : list X) (b : list Y) : boo
 Definition ksingle_wf_hook (h : hook) : bool :=
   match h with HKSingle m _ last => ksingle_wf m last | _ => true end.
 
-(* the scheduler runs a tick's hooks only when [can_run]; hooks are idle then.
-   NOTE: a PassthroughSingletonHook with nothing pending is [is_ready] (trait default) and makes
-   no decision at all; run_hooks then panics.  Such ticks ARE scheduled by the real simulator
-   (known finding, see Props/C36.v C36_run_hooks_no_panic_refuted), so they are not excluded
-   here: the panic is a property failure. *)
+(* the scheduler runs a tick's hooks only when [can_run]; hooks are idle then *)
 Definition legit_tick (hs : list hook) : bool :=
   forallb idle hs && can_run hs && forallb ksingle_wf_hook hs.
 
